@@ -207,42 +207,110 @@ pub mod stubs {
 		mixh!(0,0,0; 0,1,1; 0,2,2; 0,3,3; 1,0,4; 1,1,5; 1,2,6; 1,3,7);
 	}
 
-	// ---- E4b: ideal hash. Every distinct single-block message (block words + length) gets a
-	// fresh identifier; equal messages get the same one. Collision freedom is thereby an
-	// explicit assumption of every harness that uses it ("tampering is detected" is true only
-	// modulo collision resistance). All of grin's MMR hashes are single-block (<= 128 bytes).
-	pub const IDEAL_N: usize = 40;
+	// ---- E4b: ideal hash (Ackermann form). Every call of the compression function on a
+	// single-block message returns a *fresh symbolic* digest, constrained against every earlier
+	// call: equal messages <=> equal digests. That is exactly "some collision-free function":
+	// functional consistency plus injectivity, with no table search and no symbolic indexing.
+	// Collision freedom is thereby an explicit assumption of every harness that uses it
+	// ("tampering is detected" is true only modulo collision resistance). All of grin's MMR
+	// hashes are single-block (<= 128 bytes), asserted below.
+	pub const IDEAL_N: usize = 64;
 	pub static mut IDEAL_KEYS: [[u64; 17]; IDEAL_N] = [[0; 17]; IDEAL_N];
+	pub static mut IDEAL_OUT: [[u64; 4]; IDEAL_N] = [[0; 4]; IDEAL_N];
 	pub static mut IDEAL_LEN: usize = 0;
+	fn key_eq(a: &[u64; 17], b: &[u64; 17]) -> bool {
+		let mut d = 0u64;
+		macro_rules! acc { ($($i:expr),*) => { $( d |= a[$i] ^ b[$i]; )* } }
+		acc!(0, 1, 2, 3, 4, 5, 6, 7, 8, 9, 10, 11, 12, 13, 14, 15, 16);
+		d == 0
+	}
 	pub fn blake2b_compress_ideal(st: &mut b2::blake2b::Blake2b, f0: u64, _f1: u64) {
 		let s: &mut B2Mirror = unsafe { &mut *(st as *mut b2::blake2b::Blake2b as *mut B2Mirror) };
 		kani::assert(s.t <= 128 && f0 == !0, "ideal hash model: single-block messages only");
 		let mut key = [0u64; 17];
 		key[..16].copy_from_slice(&s.m);
 		key[16] = s.t;
-		let mut id = 0usize;
-		let mut found = false;
-		let mut i = 0;
+		let out: [u64; 4] = [kani::any(), kani::any(), kani::any(), kani::any()];
 		unsafe {
-			while i < IDEAL_N {
-				if i < IDEAL_LEN && !found && IDEAL_KEYS[i] == key {
-					id = i;
-					found = true;
+			let n = IDEAL_LEN;
+			kani::assert(n < IDEAL_N, "ideal hash: call budget of this harness");
+			kani::assume(n < IDEAL_N);
+			let mut j = 0;
+			while j < IDEAL_N {
+				if j < n {
+					let same_in = key_eq(&IDEAL_KEYS[j], &key);
+					let o = &IDEAL_OUT[j];
+					let same_out = (o[0] ^ out[0]) | (o[1] ^ out[1]) | (o[2] ^ out[2]) | (o[3] ^ out[3]) == 0;
+					kani::assume(same_in == same_out);
 				}
-				i += 1;
+				j += 1;
 			}
-			if !found {
-				kani::assert(IDEAL_LEN < IDEAL_N, "ideal hash table large enough for this harness");
-				kani::assume(IDEAL_LEN < IDEAL_N);
-				id = IDEAL_LEN;
-				IDEAL_KEYS[id] = key;
-				IDEAL_LEN += 1;
-			}
+			IDEAL_KEYS[n] = key;
+			IDEAL_OUT[n] = out;
+			IDEAL_LEN = n + 1;
 		}
-		// the digest is the first 32 bytes of h: an injective image of the identifier
-		let v = id as u64 + 1;
-		s.h[0] = [v ^ 0x9e37_79b9_7f4a_7c15, v.rotate_left(17) ^ 0x1234_5678_9abc_def0, !v, v << 32 | v];
+		s.h[0] = out;
 		s.h[1] = [0; 4];
+	}
+
+	// ---- E6 (lite): croaring::Bitmap as a 64-value bitset kept inside the (otherwise unused)
+	// roaring_bitmap_t value: bits 0..31 in `size`, bits 32..63 in `allocation_size`.
+	// Only the methods the harnesses reach are modelled; values >= 64 are outside the universe.
+	// `Bitmap` is #[repr(transparent)] over roaring_bitmap_t { high_low_container: roaring_array_t { size: i32, allocation_size: i32, .. } }.
+	#[repr(C)]
+	pub struct BmMirror {
+		pub lo: u32,
+		pub hi: u32,
+		pub containers: usize,
+		pub keys: usize,
+		pub typecodes: usize,
+		pub flags: u8,
+	}
+	const _: () = assert!(core::mem::size_of::<BmMirror>() == core::mem::size_of::<croaring::Bitmap>());
+	fn bm(b: &croaring::Bitmap) -> u64 {
+		let m: &BmMirror = unsafe { &*(b as *const croaring::Bitmap as *const BmMirror) };
+		m.lo as u64 | (m.hi as u64) << 32
+	}
+	fn bm_set(b: &mut croaring::Bitmap, v: u64) {
+		let m: &mut BmMirror = unsafe { &mut *(b as *mut croaring::Bitmap as *mut BmMirror) };
+		m.lo = v as u32;
+		m.hi = (v >> 32) as u32;
+	}
+	pub fn bitmap_new() -> croaring::Bitmap {
+		unsafe { core::mem::transmute::<BmMirror, croaring::Bitmap>(BmMirror { lo: 0, hi: 0, containers: 0, keys: 0, typecodes: 0, flags: 0 }) }
+	}
+	pub fn bitmap_drop(_b: &mut croaring::Bitmap) {}
+	pub fn bitmap_add(b: &mut croaring::Bitmap, e: u32) {
+		kani::assume(e < 64);
+		let v = bm(b) | 1u64 << e;
+		bm_set(b, v);
+	}
+	pub fn bitmap_remove(b: &mut croaring::Bitmap, e: u32) {
+		if e < 64 {
+			let v = bm(b) & !(1u64 << e);
+			bm_set(b, v);
+		}
+	}
+	pub fn bitmap_contains(b: &croaring::Bitmap, e: u32) -> bool {
+		e < 64 && bm(b) >> e & 1 == 1
+	}
+	pub fn bitmap_cardinality(b: &croaring::Bitmap) -> u64 {
+		bm(b).count_ones() as u64
+	}
+	pub fn bitmap_is_empty(b: &croaring::Bitmap) -> bool {
+		bm(b) == 0
+	}
+	pub fn bitmap_range_cardinality<R: core::ops::RangeBounds<u32>>(b: &croaring::Bitmap, r: R) -> u64 {
+		use core::ops::Bound;
+		let start = match r.start_bound() { Bound::Included(&s) => s as u64, Bound::Excluded(&s) => s as u64 + 1, Bound::Unbounded => 0 };
+		let end = match r.end_bound() { Bound::Included(&e) => e as u64 + 1, Bound::Excluded(&e) => e as u64, Bound::Unbounded => 64 };
+		let lo = if start > 64 { 64 } else { start as u32 };
+		let hi = if end > 64 { 64 } else { end as u32 };
+		if lo >= hi {
+			return 0;
+		}
+		let upto = |n: u32| if n >= 64 { u64::MAX } else { (1u64 << n) - 1 };
+		(bm(b) & upto(hi) & !upto(lo)).count_ones() as u64
 	}
 
 	// ---- E12: allocation ghost. Every request is checked against ALLOC_LIMIT (set by the
@@ -304,6 +372,18 @@ macro_rules! proof {
 	( @acc [hash_ideal, $($g:ident,)*] [$($a:tt)*] $($rest:tt)* ) => {
 		$crate::proof! { @acc [$($g,)*] [$($a)*
 			#[cfg_attr(kani, kani::stub(b2::blake2b::Blake2b::compress, crate::env::stubs::blake2b_compress_ideal))]
+		] $($rest)* }
+	};
+	( @acc [bitmap, $($g:ident,)*] [$($a:tt)*] $($rest:tt)* ) => {
+		$crate::proof! { @acc [$($g,)*] [$($a)*
+			#[cfg_attr(kani, kani::stub(croaring::Bitmap::new, crate::env::stubs::bitmap_new))]
+			#[cfg_attr(kani, kani::stub(<croaring::Bitmap as core::ops::Drop>::drop, crate::env::stubs::bitmap_drop))]
+			#[cfg_attr(kani, kani::stub(croaring::Bitmap::add, crate::env::stubs::bitmap_add))]
+			#[cfg_attr(kani, kani::stub(croaring::Bitmap::remove, crate::env::stubs::bitmap_remove))]
+			#[cfg_attr(kani, kani::stub(croaring::Bitmap::contains, crate::env::stubs::bitmap_contains))]
+			#[cfg_attr(kani, kani::stub(croaring::Bitmap::cardinality, crate::env::stubs::bitmap_cardinality))]
+			#[cfg_attr(kani, kani::stub(croaring::Bitmap::is_empty, crate::env::stubs::bitmap_is_empty))]
+			#[cfg_attr(kani, kani::stub(croaring::Bitmap::range_cardinality, crate::env::stubs::bitmap_range_cardinality))]
 		] $($rest)* }
 	};
 	( @acc [alloc, $($g:ident,)*] [$($a:tt)*] $($rest:tt)* ) => {
@@ -392,5 +472,7 @@ macro_rules! base_uses {
 		use ::zeroize;
 		#[allow(unused_imports)]
 		use ::grin_util;
+		#[allow(unused_imports)]
+		use ::croaring;
 	};
 }
